@@ -46,8 +46,13 @@ def run(repo, res):
                 eo = d.origins(v.slice) if ok else set()
                 ok = ok and all(x.startswith("np.where(") for x in eo)
                 res.require(ok, "R22.1", "variational.ExpectationPropagation.infer new node is the child of the chosen block edge", f"value `{U(v)}` (index origins {sorted(eo)})", repo.loc(inf, s), U(v))
-    if n != 2:
-        raise AnalysisError(f"R22.1: expected the two masked stores (mutation_edges, mutation_nodes) in infer, found {n}")
+    if n == 0:
+        raise AnalysisError("R22.1: no masked store to mutation_edges / mutation_nodes found in infer (anchor vanished)")
+    res.require(n == 2, "R22.1", "variational.ExpectationPropagation.infer rewrites mutation_edges and mutation_nodes only under the unphased-singleton mask", f"{n} masked store(s) found instead of the pair (mutation_edges, mutation_nodes): one of the two arrays is rewritten some other way (wholesale) or not at all", repo.loc(inf))
+    # a wholesale rebinding of either array in infer
+    for s_, g_ in stmts(inf):
+        if isinstance(s_, ast.Assign) and any(U(t_) in ("self.mutation_nodes", "self.mutation_edges") for t_ in s_.targets):
+            res.bad("R22.1", f"variational.ExpectationPropagation.infer rebinds `{U(s_.targets[0])}`", f"`{U(s_)[:90]}` rewrites the placement of every mutation, not only of unphased singletons (mutations above a root have edge NULL, which numpy wraps to the last edge)", repo.loc(inf, s_))
     # other methods do not write these arrays (except the constructor)
     for q, f in repo.mods["variational"].funcs.items():
         if q.startswith("ExpectationPropagation.") and q.count(".") == 1 and f is not inf:
